@@ -124,7 +124,9 @@ def replay_direct(p: dict, fails: list) -> dict | None:
     data = _DATA
     st = _recording_state(cands, _Script(_flat(p)))
     drawn = []
-    for h in p["hist"]:
+    # the tolerance is strict and dyadic here: a root-mean-square distance of exactly rtol is a rejection,
+    # half of it an acceptance (every second update sits on / next to the boundary)
+    for j, h in enumerate(p["hist"]):
         if h["k"] == "draw":
             drawn.append(st.sample())
         else:
@@ -132,10 +134,10 @@ def replay_direct(p: dict, fails: list) -> dict | None:
             if list(h["idx"]) in fails:
                 pred = None
             elif h["acc"]:
-                pred = data.copy()
+                pred = data + (0.0625 if j % 2 else 0.0)
             else:
-                pred = data + 1.0
-            st.update(idxs, pred, data=data, rtol=1e-3)
+                pred = data + (0.125 if j % 2 else 1.0)
+            st.update(idxs, pred, data=data, rtol=0.125)
     return _cmp_log(p, st.log, cands)
 
 
